@@ -279,6 +279,8 @@ func checkC10(c *Ctx) {
 
 	c10Client(c)
 	c10Params(c)
+	// "complete": the frame reaches the wire byte for byte
+	c09FormatStrings(c, "R-frame-verbatim")
 }
 
 func c10Client(c *Ctx) {
@@ -288,6 +290,43 @@ func c10Client(c *Ctx) {
 		lr := lr
 		if lr.perCall {
 			per = &lr
+		}
+	}
+	if per == nil && nhT != nil {
+		// the function that returns a call's answer from an HTTP response no longer parses the stream itself: is the
+		// parsing done by another goroutine? Then events and end-of-stream reach the caller over separate channels
+		// and their order is lost.
+		var readers []*ssa.Function
+		for _, lr := range sseLineReaders(c) {
+			readers = append(readers, lr.fn)
+		}
+		for _, fn := range c.P.LibFns {
+			if !clientSide(c, fn) {
+				continue
+			}
+			hasResp, hasRaw := false, false
+			for _, p := range fn.Params {
+				if ir.TypeStr(p.Type()) == "*net/http.Response" {
+					hasResp = true
+				}
+			}
+			res := fn.Signature.Results()
+			for i := 0; i < res.Len(); i++ {
+				if ir.TypeStr(res.At(i).Type()) == "*encoding/json.RawMessage" {
+					hasRaw = true
+				}
+			}
+			if !hasResp || !hasRaw {
+				continue
+			}
+			all, sync := c.Reach(fn), c.ReachSync(fn)
+			for _, r := range readers {
+				if all[r] && !sync[r] {
+					c.R.Violate("R-client-drain", "stream of "+fname(fn)+" read by another goroutine", c.Pos(fn.Pos()),
+						sprintf("%s returns the call's answer but leaves reading the SSE stream to a goroutine (%s): events and the end of the stream reach it over separate channels, so end-of-stream can overtake events still buffered — notifications are dropped and the result can be lost", fname(fn), fname(r)))
+					return
+				}
+			}
 		}
 	}
 	if per == nil || nhT == nil {
